@@ -16,7 +16,8 @@ LEVEL = "proof"
 TECHNIQUE = ("Coq proofs about a model of json_pointer.c against an independent RFC 6901 evaluator (PtrModel/PtrSpec/PtrProofs.v) "
              "+ extracted-model/C differential correspondence + independent Python RFC 6901 oracle")
 RULE = ("small-scope block: every pointer string of <= 4 (thorough 5) bytes over '/~01a-' x 5 small documents x 7 operations, and every "
-        "history of <= 3 (thorough 4) operations over a 24-operation alphabet on {\"a\":[1]}; length sweep 0..300 and around powers of two; "
+        "history of <= 3 (thorough 4) operations over a 24-operation alphabet on {\"a\":[1]}; length sweep 0..300 and around powers of two "
+        "(getf/setf shapes) and 0..300, 1020..1030 in five pointer shapes through get/set/setf (working copies); "
         "then one case = one generated tree and 1..8 get/getf/set/setf operations whose pointers are derived from the tree's node "
         "locations (correctly escaped, then optionally damaged by one of 20 mutations); a case is non-trivial when at least one "
         "operation succeeded; distinct = distinct scripts among those, plus distinct (operation kind, errno) vectors of all-failing cases")
@@ -622,6 +623,69 @@ WITNESSES = [
 ]
 
 
+# ------------------------------------------------------------------ working-copy sweep (get / set / setf)
+def copy_sweep_cases(tier):
+    """json_pointer_get_internal and json_pointer_set_with_array_cb each make their own working
+    copy of the pointer (set cuts it at the last '/').  For every total pointer length 0..300 and
+    1020..1030, five pointer shapes through json_pointer_get, json_pointer_set and a rotating
+    json_pointer_setf shape, with the lookup after each set.  Next to every addressed name sits
+    the name minus its last byte, so a pointer that loses a byte addresses the wrong node."""
+    out = []
+    meta = {"kind": "copy-sweep"}
+    n = 0
+
+    def emit(tree, p, q=None):
+        nonlocal n
+        f = F_SET[n % 5]
+        n += 1
+        ops = [("g", p, None), ("ng", p, None), ("s", p, ("i", 1000 + n)), ("g", p, None), (f, p, ("o", [])), ("g", p, None)]
+        if q is not None:
+            ops += [("g", q, None), ("s", q, ("i", 7)), ("g", q, None), (F_SET[(n + 2) % 5], q, None), ("g", q, None)]
+        out.append((mk_line(tree, ops), meta))
+
+    for L in list(range(0, 301)) + list(range(1020, 1031)):
+        # E: one long member name
+        if L >= 2:
+            name = b"k" * (L - 1)
+            emit(("o", [(name, ("i", L)), (name[:-1], ("i", -1))]), b"/" + name, b"/" + name + b"k")
+        elif L == 0:
+            emit(("o", [(b"", ("i", 0))]), b"", None)
+        else:
+            emit(("o", [(b"", ("i", 0)), (b"k", ("i", 1))]), b"/", b"/k")
+        # A: the pointer ends in an escape: "~0" and "~1"
+        if L >= 3:
+            stem = b"e" * (L - 3)
+            for tail, ch in ((b"~0", b"~"), (b"~1", b"/")):
+                members = [(stem + ch, ("i", L)), (stem, ("i", -1)), (stem + tail, ("i", -2))]
+                if ch != b"~":
+                    members.append((stem + b"~", ("i", -3)))
+                tree = ("o", members)
+                emit(tree, b"/" + stem + tail, b"/" + stem + tail + tail)
+        # B: a long parent, a one-byte last token (set cuts the copy at the last '/')
+        if L >= 4:
+            par = b"p" * (L - 3)
+            tree = ("o", [(par, ("o", [(b"b", ("i", L)), (b"", ("i", -1))])), (par[:-1], ("o", [(b"b", ("i", -2))]))])
+            emit(tree, b"/" + par + b"/b", b"/" + par + b"/c")
+        # C: an array index as last token: /aaa…/10 into a 12-element array
+        if L >= 5:
+            par = b"a" * (L - 4)
+            arr = [("i", i) for i in range(12)]
+            tree = ("o", [(par, arr), (par[:-1], [("i", -i) for i in range(12)])])
+            emit(tree, b"/" + par + b"/10", b"/" + par + b"/12")
+        # D: three nested names adding up to the length
+        if L >= 6:
+            body = L - 3
+            l1 = body // 3
+            l2 = body // 3
+            l3 = body - l1 - l2
+            n1, n2, n3 = b"x" * l1, b"y" * l2, b"z" * l3
+            leaf = ("o", [(n3, ("i", L)), (n3[:-1], ("i", -1))])
+            tree = ("o", [(n1, ("o", [(n2, leaf), (n2[:-1], None)])), (n1[:-1], None)]) if l1 >= 1 else None
+            if tree is not None and len({n2, n2[:-1]}) == 2 and len({n1, n1[:-1]}) == 2 and len({n3, n3[:-1]}) == 2:
+                emit(tree, b"/" + n1 + b"/" + n2 + b"/" + n3, b"/" + n1 + b"/" + n2 + b"/" + n3 + b"z")
+    return out
+
+
 # ------------------------------------------------------------------ small-scope enumeration
 SS_ALPHABET = b"/~01a-"      # split | escape | escape digit, index digit, leading zero | digit 1 | plain name | append
 F_GET = "GHIJD"
@@ -685,6 +749,7 @@ def gen(rng, tier):
     n = 5000 if tier == "quick" else 120000
     out = [(mk_line(t, ops), {"kind": "witness"}) for t, ops in WITNESSES]
     out += length_cases(tier)
+    out += copy_sweep_cases(tier)
     out += small_scope(tier)
     for ci in range(n):
         r = rng.random()
